@@ -337,7 +337,11 @@ class PosePath3D(object):
         self.reduce_to_ids(filtered_ids)
 
     def _jumps(self, dist: float) -> np.ndarray:
-        jumps = np.where(self.distances[1:] - self.distances[:-1] > dist)
+        # Threshold the step lengths themselves: differences of the
+        # accumulated distances lose small steps to rounding on long paths.
+        steps = np.linalg.norm(
+            self.positions_xyz[1:] - self.positions_xyz[:-1], axis=1)
+        jumps = np.where(steps > dist)
         if len(jumps[0]) == 0:
             return np.array([0, self.num_poses])
         return np.concatenate([[0], jumps[0] + 1, [self.num_poses]])
